@@ -552,3 +552,19 @@ func (v *VerifC12) NodeCommitted(configChange bool, clientID, seriesID, key uint
 
 // NodeIgnoredSnapshotRequest is node.reportIgnoredSnapshotRequest.
 func (v *VerifC12) NodeIgnoredSnapshotRequest(key uint64) { v.n.reportIgnoredSnapshotRequest(key) }
+
+// VerifC12FreshProposalKeys builds a brand new pendingProposal (one more
+// incarnation of replica replicaID of shard shardID in this process) with ps
+// shards and returns the first n keys it hands out for clientID.
+func VerifC12FreshProposalKeys(shardID, replicaID, ps, clientID uint64, n int) []uint64 {
+	old := pendingProposalShards
+	pendingProposalShards = ps
+	p := newPendingProposal(config.Config{ShardID: shardID, ReplicaID: replicaID}, false,
+		&sync.Pool{}, newEntryQueue(4, 0))
+	pendingProposalShards = old
+	out := make([]uint64, 0, n)
+	for i := 0; i < n; i++ {
+		out = append(out, p.nextKey(clientID))
+	}
+	return out
+}
